@@ -33,6 +33,7 @@ class FnSpec:
         self.sig_replace = []      # (pattern, replacement)
         self.sig_extra = []        # further ensures clauses (text, file, line), appended after sig
         self.iter_rewrites = {}    # loop ordinal -> (kind, index name, length expr)
+        self.filter_partition = {} # (filter closure ordinal, partition closure ordinal) -> ([contract, hint at body start, hint at body end], file, line)  (R15)
         self.map_collect = {}      # closure ordinal -> ([contract, hint at body start, hint after push], file, line)  (R14)
 
 
@@ -152,6 +153,14 @@ class Vc:
                 fn.loops[info[0]] = (info[1], text, p, ln)
             elif kind == 'closure':
                 fn.closures[info[0]] = (info[1], text, p, ln)
+            elif kind == 'filterpartition':
+                parts = text.split('\n---\n')
+                for h in parts[1:]:
+                    bad = ghost_only(h)
+                    if bad:
+                        raise VcError("%s:%d hint text is not ghost-only: `%s`" % (p, ln, bad))
+                fn.filter_partition[info] = (parts, p, ln)
+                fn.loops[2000 + info[0]] = (None, parts[0], p, ln)
             elif kind == 'mapcollect':
                 parts = text.split('\n---\n')
                 for h in parts[1:]:
@@ -260,6 +269,13 @@ class Vc:
                 if not m:
                     raise VcError("%s:%d bad map-collect directive" % (path, ln))
                 cur = ('mapcollect', int(m.group(1)), path, ln + 1)
+            elif word == 'filter-partition':
+                # R15: `let A = RECV.iter().filter(|X| F); let (B, C): (Vec<T>, Vec<T>) = A.into_iter().partition(|_| P);`
+                #   -> `let mut B: Vec<T> = Vec::new(); let mut C: Vec<T> = Vec::new(); for k__ in 0..RECV.len() <contract> { let X = &&RECV[k__]; if F { if P { B.push(**X); } else { C.push(**X); } } }`
+                m = re.match(r'(\d+)\s+(\d+)\s*$', rest)
+                if not m:
+                    raise VcError("%s:%d bad filter-partition directive" % (path, ln))
+                cur = ('filterpartition', (int(m.group(1)), int(m.group(2))), path, ln + 1)
             elif word == 'for-index':
                 # R6: `for P in E.iter_mut()` over an array of length N  ->  `for I in 0..N { let P = &mut E[I]; .. }`
                 #     `for (I, P) in E.into_iter().enumerate().take(N)` / `.iter().enumerate()`  ->  `for I in 0..N { let P = E[I]; .. }`
@@ -778,6 +794,8 @@ class Extractor:
                 # vacuity canary: with the function's preconditions in force `false` must NOT be provable at entry
                 edits.append((it.body.open.end, it.body.open.end, '\n        proof { assert(false); } // [canary]\n', {'kind': 'canary', 'fn': q}, -9))
                 finfo['canary'] = True
+        if not base and spec is not None and spec.filter_partition:
+            self.filter_partition_edits(sf, body, spec, edits, q, origin_fn)
         if not base and spec is not None and spec.map_collect:
             self.map_collect_edits(sf, body, spec, edits, q, origin_fn)
         if not base:
@@ -927,7 +945,7 @@ class Extractor:
             edits.append((pos, pos, '\n' + text + '\n', origin_fn(p, ln - 1), prio + ln * 1e-6))
         for k, (iter_name, text, p, ln) in spec.loops.items():
             if k >= 1000:
-                continue        # contract of a loop generated by R14 (map_collect_edits)
+                continue        # contract of a loop generated by R14 / R15 (map_collect_edits / filter_partition_edits)
             if k >= len(body.loops):
                 self.warnings.append("%s: loop %d lost (invariant skipped)" % (q, k))
                 continue
@@ -939,6 +957,80 @@ class Extractor:
                 edits.append((intok.end, intok.end, ' %s:' % iter_name, {'kind': 'gen'}))
                 self.rule('R9', sf.rel, sf.line_of(intok.start), 'ghost iterator name on the for loop of %s' % q)
             edits.append((lp.body.start, lp.body.start, '\n' + text + '\n', origin_fn(p, ln - 1), -2))
+
+    def filter_partition_edits(self, sf, body, spec, edits, q, origin_fn):
+        """R15: a lazily filtered slice partitioned into two vectors -> the index loop that evaluates filter predicate and partition predicate in the same interleaved order.
+        Trusted: slice::Iter / Filter / partition visit the elements in order, evaluate the filter predicate once per element and the partition predicate once per
+        element that passed, and extend the left vector when it returns true, else the right one (`Vec<T>: Extend<&T>` copies)."""
+        src = sf.src
+        for (k1, k2), (parts, p, ln) in spec.filter_partition.items():
+            if max(k1, k2) >= len(body.closures):
+                raise Unsupported("%s: filter-partition closures %d/%d not found" % (q, k1, k2))
+            c1, c2 = body.closures[k1], body.closures[k2]
+            s1, s2 = c1.stmt, c2.stmt
+            shape = "%s: closures %d/%d are not `let A = RECV.iter().filter(|x| F); let (B, C): (Vec<T>, Vec<T>) = A.into_iter().partition(|_| P);` (R15)" % (q, k1, k2)
+            e1, e2 = s1.elems, s2.elems
+            blk = s1.block
+            if s2.block is not blk or blk.stmts.index(s2) != blk.stmts.index(s1) + 1:
+                raise Unsupported(shape)
+            # statement 1
+            ok = len(e1) >= 11 and is_tok(e1[0], 'let') and is_tok(e1[1], kind='ident') and is_tok(e1[2], '=')
+            j = len(e1) - 1
+            while ok and j > 0 and is_tok(e1[j], ';'):
+                j -= 1
+            ok = ok and is_group(e1[j], '(') and is_tok(e1[j - 1], 'filter') and is_tok(e1[j - 2], '.') and is_group(e1[j - 3], '(') and not e1[j - 3].children and is_tok(e1[j - 4], 'iter') and is_tok(e1[j - 5], '.')
+            ok = ok and e1[j].children and e1[j].children[0] is c1.bar1 and len(c1.params) == 1 and is_tok(c1.params[0], kind='ident') and not (len(c1.body) == 1 and is_group(c1.body[0], '{'))
+            if not ok:
+                raise Unsupported(shape)
+            a_name = e1[1].text
+            recv = src[estart(e1[3]):eend(e1[j - 6])]
+            x = c1.params[0].text
+            f_src = src[estart(c1.body[0]):eend(c1.body[-1])]
+            # statement 2
+            ok = len(e2) >= 12 and is_tok(e2[0], 'let') and is_group(e2[1], '(') and is_tok(e2[2], ':') and is_group(e2[3], '(') and is_tok(e2[4], '=') and is_tok(e2[5], a_name)
+            names = [c for c in e2[1].children if not is_tok(c, ',')] if ok else []
+            ok = ok and len(names) == 2 and all(is_tok(c, kind='ident') for c in names)
+            j = len(e2) - 1
+            while ok and j > 0 and is_tok(e2[j], ';'):
+                j -= 1
+            ok = ok and j == 11 and is_group(e2[j], '(') and is_tok(e2[j - 1], 'partition') and is_tok(e2[j - 2], '.') and is_group(e2[j - 3], '(') and not e2[j - 3].children and is_tok(e2[j - 4], 'into_iter') and is_tok(e2[j - 5], '.')
+            ok = ok and e2[j].children and e2[j].children[0] is c2.bar1 and len(c2.params) == 1 and is_tok(c2.params[0], '_') and not (len(c2.body) == 1 and is_group(c2.body[0], '{'))
+            if not ok:
+                raise Unsupported(shape)
+            tys = src[e2[3].start + 1:e2[3].end - 1]
+            depth, cut = 0, None
+            for ci, ch in enumerate(tys):
+                if ch in '<(':
+                    depth += 1
+                elif ch in '>)':
+                    depth -= 1
+                elif ch == ',' and depth == 0:
+                    cut = ci
+                    break
+            if cut is None:
+                raise Unsupported(shape)
+            tb, tc = tys[:cut].strip(), tys[cut + 1:].strip().rstrip(',').strip()
+            b_name, c_name = names[0].text, names[1].text
+            p_src = src[estart(c2.body[0]):eend(c2.body[-1])]
+            contract = parts[0]
+            h0 = parts[1] if len(parts) > 1 else ''
+            h1 = parts[2] if len(parts) > 2 else ''
+            R = {'kind': 'rule', 'rule': 'R15'}
+            base_ln = ln - 1
+            edits.append((s1.start, s1.start, 'let mut %s: %s = Vec::new(); let mut %s: %s = Vec::new();\n        for k__ in 0..%s.len()' % (b_name, tb, c_name, tc, recv), R, -3))
+            edits.append((s1.start, s1.start, '\n' + contract + '\n        ', origin_fn(p, base_ln), -2))
+            edits.append((s1.start, s1.start, '{ let x0__ = &%s[k__]; let %s = &x0__;' % (recv, x), R, -1))
+            if h0:
+                edits.append((s1.start, s1.start, '\n' + h0 + '\n', origin_fn(p, base_ln + len(parts[0].split('\n')) + 1), -0.5))
+            # the two predicates keep their source text (and origin); everything else of the two statements is replaced
+            edits.append((s1.start, estart(c1.body[0]), ' if ', R, -0.2))
+            edits.append((eend(c1.body[-1]), estart(c2.body[0]), ' { if ', R))
+            tail = ' { %s.push(**%s); } else { %s.push(**%s); } }' % (b_name, x, c_name, x)
+            edits.append((eend(c2.body[-1]), s2.end, tail, R, 1))
+            if h1:
+                edits.append((s2.end, s2.end, '\n' + h1 + '\n', origin_fn(p, base_ln + len(parts[0].split('\n')) + 1 + (len(h0.split('\n')) + 1 if h0 else 0)), 2))
+            edits.append((s2.end, s2.end, ' }', R, 3))
+            self.rule('R15', sf.rel, sf.line_of(s1.start), '%s.iter().filter(|%s| ..) partitioned into (%s, %s) in %s -> index loop evaluating both predicates in the same interleaved order' % (recv, x, b_name, c_name, q))
 
     def map_collect_edits(self, sf, body, spec, edits, q, origin_fn):
         """R14: `let NAME: T = RECV.iter_mut().enumerate().map(|(N, X)| { BODY }).collect();` -> an index loop that pushes the value of BODY.
